@@ -227,7 +227,7 @@ def reorder_points(M, order):
     return N
 
 
-def relabel(rng, M, points=True, cells=True, blocks=True, how=None):
+def relabel(rng, M, points=True, cells=True, blocks=True, how=None, rotate=False):
     """same mesh, different storage order; returns (new mesh, point perm: new k holds old perm[k], cell perms per type)"""
     N = copy_mesh(M)
     n = len(M["pts"])
@@ -253,7 +253,11 @@ def relabel(rng, M, points=True, cells=True, blocks=True, how=None):
         if cells:
             rng.shuffle(cp_)
         cperms[t] = cp_
-        newblocks.append([t, [[inv[c] for c in rows[o]] for o in cp_]])
+        nb = [[inv[c] for c in rows[o]] for o in cp_]
+        if rotate and cells and t in ("TRIANGLE", "QUAD", "POLYGON"):
+            # the same cell listed from another start corner (a cyclic rotation keeps the cell and its orientation)
+            nb = [(r[k:] + r[:k]) if rng.random() < 0.3 else r for r in nb for k in [rng.randrange(len(r))]]
+        newblocks.append([t, nb])
     if blocks:
         rng.shuffle(newblocks)
     N["blocks"] = newblocks
